@@ -672,6 +672,23 @@ func runC03(c *fw.Ctx) {
 	addc("literal value longer than the block", 0x40, 0x01, 'k', 0x05, 'a', 'b')
 	addc("literal name longer than the block", 0x40, 0x7e, 'k')
 	addc("literal value length integer overflows", 0x00, 0x01, 'k', 0x7f, 0xff, 0xff, 0xff, 0xff, 0xff, 0xff, 0xff, 0xff, 0xff, 0x7f)
+	// string lengths near every implementation limit: 2..12 continuation octets, for name and value,
+	// raw and Huffman-flagged, in each literal representation
+	for _, first := range []byte{0x00, 0x10, 0x40} {
+		for n := 2; n <= 12; n++ {
+			for _, hbit := range []byte{0x00, 0x80} {
+				for _, lastb := range []byte{0x7f, 0x01} {
+					l := []byte{0x7f | hbit}
+					for i := 0; i < n-1; i++ {
+						l = append(l, 0xff)
+					}
+					l = append(l, lastb)
+					addc(fmt.Sprintf("value length with %d continuation octets (first %#x, H=%v, last %#x)", n, first, hbit != 0, lastb), append([]byte{first, 0x01, 'k'}, l...)...)
+					addc(fmt.Sprintf("name length with %d continuation octets (first %#x, H=%v, last %#x)", n, first, hbit != 0, lastb), append([]byte{first}, l...)...)
+				}
+			}
+		}
+	}
 	// bad huffman strings
 	addc("huffman value with EOS", 0x00, 0x01, 'k', 0x84, 0xff, 0xff, 0xff, 0xff)
 	addc("huffman value with 8 bits of padding", 0x00, 0x01, 'k', 0x82, 0x1f, 0xff)
